@@ -195,3 +195,8 @@ Definition spec_chk (c : gcase) : bool :=
 
 (* the transcription of the path patterns against the regular expressions of the test file *)
 Definition path_chk (c : list Z * nat) : bool := Nat.eqb (correction_code (known_protoc_corrections (fst c))) (snd c).
+
+(* all the kinds of C03 cases in one list, so that one evaluation serves them *)
+Inductive c03_case := CGo (c : gcase) | CSpec (c : gcase) | CPath (p : list Z * nat).
+Definition c03_chk (c : c03_case) : bool :=
+  match c with CGo g => go_chk g | CSpec g => spec_chk g | CPath p => path_chk p end.
